@@ -13,6 +13,7 @@ import (
 	"path/filepath"
 	"sort"
 	"strings"
+	"sync/atomic"
 	"syscall"
 	"time"
 
@@ -21,13 +22,30 @@ import (
 	"tkestack.io/kvass/pkg/target"
 )
 
-func freePort() int {
-	l, err := net.Listen("tcp", "127.0.0.1:0")
-	if err != nil {
-		return 0
+// portPair hands out API/proxy ports from a range private to this worker process. Ports probed
+// with Listen(":0") and closed again can be taken by another worker's sidecar before ours binds
+// them, and the readiness probe would then talk to the wrong process.
+var portCounter int
+
+func portPair() (int, int) {
+	base := 20000 + (os.Getpid()%400)*30
+	for try := 0; try < 15; try++ {
+		a := base + (portCounter%15)*2
+		portCounter++
+		ok := true
+		for _, p := range []int{a, a + 1} {
+			l, err := net.Listen("tcp", fmt.Sprintf("127.0.0.1:%d", p))
+			if err != nil {
+				ok = false
+				break
+			}
+			l.Close()
+		}
+		if ok {
+			return a, a + 1
+		}
 	}
-	defer l.Close()
-	return l.Addr().(*net.TCPAddr).Port
+	return 0, 0
 }
 
 type realSidecar struct {
@@ -37,8 +55,24 @@ type realSidecar struct {
 	done   chan error
 }
 
-func startRealSidecar(bin, dir, promURL string) (*realSidecar, error) {
-	ap, pp := freePort(), freePort()
+// startRealSidecar retries on another port pair when the process that answers is not ours.
+func startRealSidecar(bin, dir, promURL string, tsdbHits func() int64) (*realSidecar, error) {
+	var rs *realSidecar
+	var err error
+	for try := 0; try < 6; try++ {
+		rs, err = startRealSidecarOnce(bin, dir, promURL, tsdbHits)
+		if err == nil || strings.Contains(err.Error(), "exited during start-up") {
+			return rs, err
+		}
+	}
+	return rs, err
+}
+
+func startRealSidecarOnce(bin, dir, promURL string, tsdbHits func() int64) (*realSidecar, error) {
+	ap, pp := portPair()
+	if ap == 0 {
+		return &realSidecar{stderr: &bytes.Buffer{}}, fmt.Errorf("no free port pair in this worker's range (harness)")
+	}
 	rs := &realSidecar{api: fmt.Sprintf("http://127.0.0.1:%d", ap), stderr: &bytes.Buffer{}, done: make(chan error, 1)}
 	rs.cmd = exec.Command(bin, "sidecar", "--config.file=", "--config.output-file="+filepath.Join(dir, "out.yaml"),
 		"--store.path="+filepath.Join(dir, "store"), fmt.Sprintf("--web.api-addr=127.0.0.1:%d", ap),
@@ -56,11 +90,13 @@ func startRealSidecar(bin, dir, promURL string) (*realSidecar, error) {
 			return rs, fmt.Errorf("sidecar exited during start-up: %v", err)
 		default:
 		}
+		before := tsdbHits()
 		resp, err := http.Get(rs.api + "/api/v1/shard/runtimeinfo/")
 		if err == nil {
 			io.Copy(io.Discard, resp.Body)
 			resp.Body.Close()
-			if resp.StatusCode == 200 {
+			// identity: OUR sidecar asks OUR fake Prometheus for the head series when it answers
+			if resp.StatusCode == 200 && tsdbHits() > before {
 				return rs, nil
 			}
 		}
@@ -142,9 +178,11 @@ func runC09Kill(w *core.WorkerCtx, idx int, c c09Case) *core.CaseResult {
 		res.Inconcl = "kvass binary not built: " + err.Error()
 		return res
 	}
+	var tsdb int64
 	prom := httptest.NewServer(http.HandlerFunc(func(rw http.ResponseWriter, r *http.Request) {
 		rw.Header().Set("Content-Type", "application/json")
 		if strings.HasSuffix(r.URL.Path, "/status/tsdb") {
+			atomic.AddInt64(&tsdb, 1)
 			io.WriteString(rw, `{"status":"success","data":{"headStats":{"numSeries":0}}}`)
 			return
 		}
@@ -159,7 +197,7 @@ func runC09Kill(w *core.WorkerCtx, idx int, c c09Case) *core.CaseResult {
 	rounds := 4
 	var trace []string
 	for round := 0; round < rounds; round++ {
-		rs, err := startRealSidecar(bin, dir, prom.URL)
+		rs, err := startRealSidecar(bin, dir, prom.URL, func() int64 { return atomic.LoadInt64(&tsdb) })
 		if err != nil {
 			if strings.Contains(err.Error(), "exited during start-up") {
 				res.Violate("C09/kill/start-fails", "real sidecar did not start on the store left by a SIGKILL (round %d): %v: %s", round, err, clipS(rs.stderr.String(), 600))
